@@ -88,7 +88,7 @@ func NewHeaderParameter(sr specification.Ref[specification.HeaderParameter], com
 		Description: s.Description,
 	}
 	out.Name = s.Name
-	out.FieldName = PublicFieldName(s.Name)
+	out.FieldName = Title(s.Name)
 
 	schema, ims, err := NewSchema(s.Schema, components, cfg)
 	if err != nil {
